@@ -217,7 +217,7 @@ func oracleCache(opsPath, outPath string) {
 		unit := uint64(20000)
 		var v string
 		var err error
-		for try := 0; try < 8; try++ {
+		for try := 0; try < 12; try++ {
 			v, err = oracleCase(c, unit)
 			if err == nil {
 				break
